@@ -168,6 +168,9 @@ class Kernel:
         outcome = {} if p.foreign else self.outcomes.get(p.task, {})
         if p.termed:
             p.status = signal.SIGTERM
+        elif p.foreign:
+            # unrelated children end with statuses no task uses, alternately success / failure
+            p.status = (77 << 8) if p.pid % 2 else 0
         else:
             p.status = _wait_status(outcome)
         # Files the task leaves in its output directory on success.
